@@ -108,6 +108,9 @@ def run_rebind(case):
     return out
 
 
+UNSTABLE = {}
+
+
 def views(script):
     use_repo()
     import Reduino
@@ -117,6 +120,13 @@ def views(script):
     program = parse(script)
     libs = Reduino._collect_required_libraries(program)
     cpp = emit(program)
+    # the three views are functions of the script: asking again (after the sketch was emitted, or emitting twice) changes nothing
+    libs_again = Reduino._collect_required_libraries(program)
+    cpp_again = emit(program)
+    UNSTABLE.pop("msg", None)
+    if libs_again != libs or cpp_again != cpp:
+        UNSTABLE["msg"] = (f"views change when taken a second time from the same Program: lib_deps {libs} -> {libs_again}; "
+                           f"sketch text {'unchanged' if cpp_again == cpp else 'differs'}")
     incs = INC_RE.findall(cpp)
     lib_incs = [LIB_OF_HEADER[h] for h in incs if h in LIB_OF_HEADER]
     classes = CLASS_RE.findall(cpp)
@@ -154,7 +164,7 @@ def run_case(case):
     except (ValueError, SyntaxError) as e:
         out["rejected"] = str(e)
         return out
-    out.update(libs=libs, incs=incs, lib_incs=lib_incs, classes=classes, cpp=cpp)
+    out.update(libs=libs, incs=incs, lib_incs=lib_incs, classes=classes, cpp=cpp, unstable=UNSTABLE.get("msg"))
     out["ini_libs"] = ini_libs(libs, cpp, idx)
     out["platform"] = PLATFORMS[idx % len(PLATFORMS)]
     if link:
@@ -201,6 +211,8 @@ def main() -> int:
         w = {"script.py": out["script"], "sketch.cpp": out["cpp"], "detail.json": json.dumps(
             {"lib_deps": L, "includes": out["incs"], "classes_instantiated": K, "devices_declared": sorted(want)}, indent=1)}
         problems = []
+        if out.get("unstable"):
+            problems.append(("views-unstable", out["unstable"]))
         if len(L) != len(set(L)):
             problems.append(("dup-lib", f"library requested twice: {L}"))
         if len(out["incs"]) != len(set(out["incs"])):
